@@ -25,6 +25,7 @@ namespace gx
         NEST = 'n',  // nested_<GxSub>(a, b, body)
         INL = 'm',   // wire<GxSub>(a, b, body)   (inlined)
         TICK = 't',  // self-scheduling source: k = period*16 + count ; emits count values period apart from start
+        USRC = 'u',  // scripted self-scheduling TS<Int> source: ticks exactly at the cycles of its history mask (no other wake-ups)
         ARG = 'p',   // (bodies only) pass-through of boundary input in[0] (0 = a, 1 = b)
     };
 
@@ -47,7 +48,7 @@ namespace gx
     {
         switch (k)
         {
-            case SRC: case BSRC: case TICK: return 0;
+            case SRC: case BSRC: case TICK: case USRC: return 0;
             case F1: case ACC: case ARG: return 1;
             case F2: case SUML: case SUMB: case NEST: case INL: return 2;
             case ITE: case F3: return 3;
@@ -169,13 +170,15 @@ namespace gx
     {
         std::vector<Rec> evals;
         std::vector<long> root_cycles;
+        std::vector<long> root_next;  // next_scheduled_time() of the root graph observed after each cycle (LONG_MAX = none)
         std::string monitor_error;  // first violation found by the lifecycle monitor
-        void clear() { evals.clear(); root_cycles.clear(); monitor_error.clear(); }
+        void clear() { evals.clear(); root_cycles.clear(); root_next.clear(); monitor_error.clear(); }
     };
     inline RunLog *g_log = nullptr;
     inline std::vector<Program> &bodies() { static std::vector<Program> b; return b; }
 
-    inline long rel(DateTime t) { return static_cast<long>((t - MIN_ST).count()); }
+    inline long &run_origin() { static long o = 0; return o; }  // start time offset (cycles are relative to the run's start)
+    inline long rel(DateTime t) { return t >= MAX_DT ? LONG_MAX : static_cast<long>((t - MIN_ST).count()) - run_origin(); }
 
     template <typename InT>
     inline void rd(Rec &r, int i, const InT &in)
@@ -294,11 +297,37 @@ namespace gx
         {
             const Int period = pc.value() / 16, count = pc.value() % 16;
             const Int i = n.get();
-            Rec r; r.id = id.value(); r.t = rel(now); r.n = 0; r.out = 1000 * id.value() + i;
+            Rec r; r.id = id.value(); r.t = rel(now); r.n = 0; r.out = 1000 * pc.value() + i;
             push(r);
             out.set(Int{r.out});
             n.set(i + 1);
             if (i + 1 < count) sched.schedule(MIN_TD * period);
+        }
+    };
+
+    // masks of scripted sources, set by the harness before a run (index = statement index in the root program)
+    inline std::map<long, unsigned> &usrc_masks() { static std::map<long, unsigned> m; return m; }
+    struct NUSrc
+    {
+        static constexpr auto name = "gx_usrc";
+        static long next_tick(unsigned mask, long after)
+        {
+            for (long c = after + 1; c < 32; ++c) if ((mask >> c) & 1u) return c;
+            return -1;
+        }
+        static void start(NodeScheduler sched, Scalar<"idx", Int> idx)
+        {
+            const unsigned mask = usrc_masks()[idx.value()];
+            const long first = next_tick(mask, -1);
+            if (first >= 0) sched.schedule(MIN_ST + TimeDelta{run_origin() + first});
+        }
+        static void eval(NodeScheduler sched, Scalar<"idx", Int> idx, DateTime now, Out<TS<Int>> out)
+        {
+            const unsigned mask = usrc_masks()[idx.value()];
+            const long c = rel(now);
+            out.set(Int{100 * (c + 1) + idx.value()});
+            const long nxt = next_tick(mask, c);
+            if (nxt >= 0) sched.schedule(MIN_ST + TimeDelta{run_origin() + nxt});
         }
     };
 
@@ -375,6 +404,7 @@ namespace gx
                 case SRC: slot.ip = wire<stdlib::replay_impl, TS<Int>>(c.w, Str{c.key_prefix + "s" + std::to_string(idx)}); break;
                 case BSRC: slot.bp = wire<stdlib::replay_impl, TS<Bool>>(c.w, Str{c.key_prefix + "c" + std::to_string(idx)}); break;
                 case TICK: slot.ip = wire<NTick>(c.w, Int{s.k}, id); break;
+                case USRC: slot.ip = wire<NUSrc>(c.w, Int{idx}); break;
                 case ARG: slot.ip = int_port(s.in[0]); break;
                 case F1: slot.ip = wire<NF1>(c.w, ip(0), Int{s.k}, id); break;
                 case F2: slot.ip = wire<NF2>(c.w, ip(0), ip(1), Int{s.k}, id); break;
@@ -420,8 +450,9 @@ namespace gx
         for (std::size_t i = 0; i < p.st.size(); ++i)
         {
             const Kind k = p.st[i].kind;
-            if (k != SRC && k != BSRC) continue;
+            if (k != SRC && k != BSRC && k != USRC) continue;
             const unsigned mask = si < h.tick.size() ? h.tick[si] : 0u;
+            if (k == USRC) { usrc_masks()[static_cast<long>(i)] = mask; ++si; continue; }
             if (k == SRC)
             {
                 std::vector<std::optional<Int>> seq;
@@ -511,14 +542,14 @@ namespace gx
             auto rec_in = [&](Rec &rc, int j, RIn x) { rc.valid[j] = x.valid; rc.mod[j] = x.mod; rc.v[j] = x.valid ? x.v : 0; };
             switch (s.kind)
             {
-                case SRC: case BSRC:
+                case SRC: case BSRC: case USRC:
                 {
                     const unsigned mask = (h && static_cast<std::size_t>(si) < h->tick.size()) ? h->tick[static_cast<std::size_t>(si)] : 0u;
                     const bool tick = t >= 0 && t < (h ? h->cycles : 0) && ((mask >> t) & 1u);
                     if (tick)
                     {
                         r.valid = true; r.mod = true;
-                        if (s.kind == SRC) r.v = src_value(static_cast<int>(i), static_cast<int>(t));
+                        if (s.kind == SRC || s.kind == USRC) r.v = src_value(static_cast<int>(i), static_cast<int>(t));
                         else { const unsigned vm = static_cast<std::size_t>(si) < h->bval.size() ? h->bval[static_cast<std::size_t>(si)] : 0u; r.v = (vm >> t) & 1u; }
                     }
                     ++si;
@@ -529,7 +560,7 @@ namespace gx
                     if (r.armed && r.next_tick == t)
                     {
                         const long period = s.k / 16, count = s.k % 16;
-                        Rec rc; rc.id = id; rc.t = t; rc.n = 0; rc.out = 1000 * id + r.emitted;
+                        Rec rc; rc.id = id; rc.t = t; rc.n = 0; rc.out = 1000 * s.k + r.emitted;
                         out.push_back(rc);
                         r.valid = true; r.mod = true; r.v = rc.out;
                         ++r.emitted;
@@ -640,7 +671,7 @@ namespace gx
             // does anything happen at t? sources ticking at t or timers due at t
             bool src = false;
             std::size_t si = 0;
-            for (auto &s : p.st) if (s.kind == SRC || s.kind == BSRC) { if (t < h.cycles && si < h.tick.size() && ((h.tick[si] >> t) & 1u)) src = true; ++si; }
+            for (auto &s : p.st) if (s.kind == SRC || s.kind == BSRC || s.kind == USRC) { if (t < h.cycles && si < h.tick.size() && ((h.tick[si] >> t) & 1u)) src = true; ++si; }
             const long timer = ref_next_timer(p, st);
             if (!src && timer != t)
             {
@@ -649,7 +680,7 @@ namespace gx
                 for (long c = t + 1; c < h.cycles; ++c)
                 {
                     std::size_t sj = 0; bool any = false;
-                    for (auto &s : p.st) if (s.kind == SRC || s.kind == BSRC) { if (sj < h.tick.size() && ((h.tick[sj] >> c) & 1u)) any = true; ++sj; }
+                    for (auto &s : p.st) if (s.kind == SRC || s.kind == BSRC || s.kind == USRC) { if (sj < h.tick.size() && ((h.tick[sj] >> c) & 1u)) any = true; ++sj; }
                     if (any) { nxt = c; break; }
                 }
                 if (timer > t) nxt = std::min(nxt, timer);
@@ -703,6 +734,7 @@ namespace gx
         {
             if (stack.empty() || stack.back().graph != g.data()) { fail("unbalanced graph evaluation events"); return; }
             stack.pop_back();
+            if (g.is_root() && g_log) g_log->root_next.push_back(rel(g.next_scheduled_time()));
         }
         void on_before_node_evaluation(const NodeView &n) override
         {
